@@ -270,15 +270,33 @@ def c13e(tree, ob):
     if not fv.has(a, 'major_type == 4', True):
         ob.violate(UAGENT, fv.qual, src(a)[:60], 'something other than a CBOR array is queued as a bundle', a)
     item = one([x for x in calls_in(a) if call_name(x) == 'BundleItem'], 'queued item', ob)
-    fk = fv.value_at(kwarg(item, 'file'), a, keep=('data', 'off_start', 'off_end'))
-    if pm('BytesIO(data[off_start:off_end])', fk) is None:
+    # the slice data[LOW:UP]: each bound is the read position (buf.tell()), LOW taken before and UP after decoding exactly
+    # one CBOR item; a bound may be a named local or the call itself
+    fk = fv.value_at(kwarg(item, 'file'), a, depth=1)
+    got = pm('BytesIO(data[$lo:$up])', fk)
+    sl_stmt = a
+    if got is None and isinstance(kwarg(item, 'file'), ast.Call) and kwarg(item, 'file').args and isinstance(kwarg(item, 'file').args[0], ast.Name):
+        rd = fv.reaching_defs(kwarg(item, 'file').args[0].id, a)
+        if len(rd) == 1 and rd[0][1] is not None:
+            got = pm('data[$lo:$up]', rd[0][1])
+            sl_stmt = rd[0][0]
+    if got is None:
         ob.violate(UAGENT, fv.qual, src(kwarg(item, 'file')), 'the queued bundle is not cut out of the datagram by item boundaries', a)
     else:
-        s0 = fv.reaching_defs('off_start', a)
-        s1 = fv.reaching_defs('off_end', a)
+        def bound(expr):
+            ''' statement at which the read position is taken for this bound, or None '''
+            if pm('buf.tell()', expr) is not None:
+                return sl_stmt
+            if isinstance(expr, ast.Name):
+                rd = fv.reaching_defs(expr.id, sl_stmt)
+                if len(rd) == 1 and rd[0][1] is not None and pm('buf.tell()', rd[0][1]) is not None:
+                    return rd[0][0]
+            return None
+        s0 = bound(got['lo'])
+        s1 = bound(got['up'])
         loads = [c for c in calls_in(loop) if pm('cbor2.load(buf)', c) is not None and fv.has(c, 'major_type == 4', True)]
-        okb = len(s0) == 1 and len(s1) == 1 and pm('buf.tell()', s0[0][1]) is not None and pm('buf.tell()', s1[0][1]) is not None and loads \
-            and fv.node(loads[0]) in fv.cfg.reachable([fv.node(s0[0][0])], avoid=[fv.node(s1[0][0])]) and fv.dominates(loads[0], s1[0][0])[0]
+        okb = s0 is not None and s1 is not None and s0 is not s1 and loads \
+            and fv.node(loads[0]) in fv.cfg.reachable([fv.node(s0)], avoid=[fv.node(s1)]) and fv.dominates(loads[0], s1)[0] and fv.dominates(s0, loads[0])[0]
         if not okb:
             ob.violate(UAGENT, fv.qual, 'off_start / cbor2.load / off_end', 'the bundle boundaries are not the positions before and after decoding exactly one CBOR item', a)
         else:
